@@ -55,6 +55,10 @@ RAW_SINGLES = [
     ('?(a|b)[(]', (('grp', '?', (L('a'), L('b'))), S('(')), True),
     ('[)]a|b'.split('|')[0], (S(')'),) + L('a'), False),
     ('!(a[|)]|b)', (('grp', '!', (L('a') + (S('|', ')'),), L('b'))),), True),
+    # an escaped `]` does not close the bracket: the `|` behind it is still a member
+    ('a[\\]|]b', L('a') + (S(']', '|'),) + L('b'), False),
+    ('[\\]|a]b', (S(']', '|', 'a'),) + L('b'), False),
+    ('@(a[\\])|]|b)', (('grp', '@', (L('a') + (S(']', ')', '|'),), L('b'))),), True),
 ]
 
 
